@@ -12,6 +12,7 @@ mod bls;
 mod treehash;
 mod merkle;
 mod keys;
+mod builders;
 mod gen_types;
 mod streamable;
 
@@ -47,6 +48,7 @@ fn main() {
         "C06" => cond::run_c06(&mut o, seed, thorough, replay),
         "C13" => streamable::run_c13(&mut o, dir, seed, thorough, replay),
         "C14" => streamable::run_c14(&mut o, dir, seed, thorough, replay),
+        "C10" => builders::run(&mut o, seed, thorough, replay),
         "C12" => merkle::run(&mut o, seed, thorough, replay),
         "C16" => keys::run(&mut o, seed, thorough, replay),
         "C17" => treehash::run(&mut o, seed, thorough, replay),
